@@ -88,4 +88,47 @@ StoreAlgo(vm, ve, t, rnd, ovf, raw) ==
 \* Fxp -> Fxp (constructor from Fxp, set_val(Fxp), resize, like(), equal()):
 \*   val.val * 2**(n_frac_dst - n_frac_src)  stored with raw=True
 ConvertAlgo(c, ts, td, rnd, ovf) == StoreAlgo(c, td.f - ts.f, td, rnd, ovf, TRUE)
+
+(************************* arithmetic: the raw method ***********************)
+\* Python floor division / modulo on integers (sign of the divisor)
+FloorDivI(a, b) == IF b > 0 THEN a \div b ELSE (-a) \div (-b)
+ModI(a, b) == a - b * FloorDivI(a, b)
+\* x.val * 2**k : an integer for k >= 0, an exact float (dyadic) for k < 0.  As a dyadic [m, e].
+Times2(c, k) == IF k >= 0 THEN [m |-> c * Pow2(k), e |-> 0] ELSE [m |-> c, e |-> k]
+DyAdd(a, b) == LET e == MinOf(a.e, b.e) IN [m |-> a.m * Pow2(a.e - e) + b.m * Pow2(b.e - e), e |-> e]
+DySub(a, b) == LET e == MinOf(a.e, b.e) IN [m |-> a.m * Pow2(a.e - e) - b.m * Pow2(b.e - e), e |-> e]
+\* Fxp(val, signed, n_int, n_frac, raw=True, config): the constructor stores the raw value
+StoreRawDy(d, tz, rnd, ovf) == StoreAlgo(d.m, d.e, tz, rnd, ovf, TRUE)
+\* functions._add_raw / _sub_raw / _mul_raw with n_frac = tz.f
+AddRawAlgo(cx, tx, cy, ty, tz, rnd, ovf) ==
+   StoreRawDy(DyAdd(Times2(cx, tz.f - tx.f), Times2(cy, tz.f - ty.f)), tz, rnd, ovf)
+SubRawAlgo(cx, tx, cy, ty, tz, rnd, ovf) ==
+   StoreRawDy(DySub(Times2(cx, tz.f - tx.f), Times2(cy, tz.f - ty.f)), tz, rnd, ovf)
+MulRawAlgo(cx, tx, cy, ty, tz, rnd, ovf) ==
+   StoreRawDy(Times2(cx * cy, tz.f - tx.f - ty.f), tz, rnd, ovf)
+\* the repr method: operate on the read-back values, store the value (not raw)
+ReprAlgo(op, cx, tx, cy, ty, tz, rnd, ovf) ==
+   LET vx == [m |-> cx, e |-> -tx.f]  vy == [m |-> cy, e |-> -ty.f]
+       v == CASE op = "add" -> DyAdd(vx, vy) [] op = "sub" -> DySub(vx, vy)
+              [] op = "mul" -> [m |-> cx * cy, e |-> -tx.f - ty.f]
+   IN StoreAlgo(v.m, v.e, tz, rnd, ovf, FALSE)
+RawAlgo(op, cx, tx, cy, ty, tz, rnd, ovf) ==
+   CASE op = "add" -> AddRawAlgo(cx, tx, cy, ty, tz, rnd, ovf)
+     [] op = "sub" -> SubRawAlgo(cx, tx, cy, ty, tz, rnd, ovf)
+     [] op = "mul" -> MulRawAlgo(cx, tx, cy, ty, tz, rnd, ovf)
+\* _truediv_raw:  (x.val * 2**(n_frac - x.n_frac + y.n_frac)) // y.val
+TrueDivRawAlgo(cx, tx, cy, ty, tz, rnd, ovf) ==
+   LET a == Times2(cx, tz.f - tx.f + ty.f)
+       q == IF a.e = 0 THEN FloorDivI(a.m, cy) ELSE FloorDivI(a.m, cy * Pow2(-a.e))
+   IN StoreAlgo(q, 0, tz, rnd, ovf, TRUE)
+\* _floordiv_raw: ((x.val * 2**(f - fx)) // (y.val * 2**(f - fy))) * 2**f
+FloorQuot(cx, tx, cy, ty, f) ==
+   LET a == Times2(cx, f - tx.f)  b == Times2(cy, f - ty.f)  e == MinOf(a.e, b.e)
+   IN FloorDivI(a.m * Pow2(a.e - e), b.m * Pow2(b.e - e))
+FloorDivRawAlgo(cx, tx, cy, ty, tz, rnd, ovf) ==
+   StoreRawDy(Times2(FloorQuot(cx, tx, cy, ty, tz.f), tz.f), tz, rnd, ovf)
+\* _mod_raw: (x.val * 2**(f - fx)) % (y.val * 2**(f - fy))
+ModRawAlgo(cx, tx, cy, ty, tz, rnd, ovf) ==
+   LET a == Times2(cx, tz.f - tx.f)  b == Times2(cy, tz.f - ty.f)  e == MinOf(a.e, b.e)
+   IN StoreAlgo(ModI(a.m * Pow2(a.e - e), b.m * Pow2(b.e - e)), e, tz, rnd, ovf, TRUE)
 =============================================================================
